@@ -250,6 +250,24 @@ pub fn project(raw: &[u8], mode: &str) -> Value {
     if mode == "full" {
         r["body"] = ints(body);
     }
+    // ndelims: how many lines of the body consist of "--" + the boundary parameter of Content-Type (0 without one).  A mechanical
+    // count, used by Static!C03Violations for range lists too long for the part-by-part judgement.
+    let mut ndelims = 0usize;
+    for h in r["hs"].as_array().cloned().unwrap_or_default() {
+        if h["nl"] == "content-type" {
+            if let Some(p) = h["v"].as_str().unwrap_or("").find("boundary=") {
+                let b = h["v"].as_str().unwrap()[p + 9..].trim().to_string();
+                if !b.is_empty() {
+                    let delim = format!("--{}", b);
+                    ndelims = body.split(|c| *c == b'\n').filter(|l| {
+                        let l = if l.last() == Some(&b'\r') { &l[..l.len() - 1] } else { &l[..] };
+                        l == delim.as_bytes()
+                    }).count();
+                }
+            }
+        }
+    }
+    r["ndelims"] = json!(ndelims);
     r
 }
 
